@@ -99,8 +99,23 @@ func genListPair(t *rapid.T, strs bool) (interface{}, interface{}) {
 	for i, v := range b {
 		sb[i] = elemStr(v)
 	}
-	if rapid.IntRange(0, 3).Draw(t, "longelems") == 0 {
+	switch rapid.IntRange(0, 5).Draw(t, "longelems") {
+	case 0:
 		return longElems(sa), longElems(sb)
+	case 1:
+		// elements whose text is delicate for a lexer: they END (or begin) with a backslash, a blank, a
+		// bracket, a semicolon ... (the same equalities: one affix for every element)
+		affix := rapid.SampledFrom([]string{"\\", " ", "\n", "(", ")", ";", ",", "'", "\u00e9", "\\\\", "[", "\t"}).Draw(t, "affix")
+		front := rapid.Bool().Draw(t, "affixfront")
+		for _, l := range [][]string{sa, sb} {
+			for i := range l {
+				if front {
+					l[i] = affix + l[i]
+				} else {
+					l[i] += affix
+				}
+			}
+		}
 	}
 	return sa, sb
 }
